@@ -7,11 +7,11 @@ use serde::{Deserialize, Serialize};
 
 /// Both shipped data implementations use the same concrete associated types.
 pub trait GD:
-    GarnishData<Size = usize, Number = SimpleNumber, Symbol = u64, Char = char, Byte = u8, Error = DataError>
+    GarnishData<Size = usize, Number = SimpleNumber, Symbol = u64, Char = char, Byte = u8, Error = DataError> + 'static
 {
 }
 impl<T> GD for T where
-    T: GarnishData<Size = usize, Number = SimpleNumber, Symbol = u64, Char = char, Byte = u8, Error = DataError>
+    T: GarnishData<Size = usize, Number = SimpleNumber, Symbol = u64, Char = char, Byte = u8, Error = DataError> + 'static
 {
 }
 
@@ -501,7 +501,18 @@ pub fn materialise<D: GD>(d: &mut D, v: &Val) -> Result<usize, DataError> {
         }
         Val::Expr(e) => d.add_expression(*e)?,
         Val::External(e) => d.add_external(*e)?,
-        Val::Custom | Val::Bad(_) => return Err(DataError::from("cannot materialise".to_string())),
+        Val::Custom => {
+            // a value of the host's own type: no interface method adds one, each implementation has its own way
+            let any: &mut dyn std::any::Any = d;
+            if let Some(s) = any.downcast_mut::<crate::simdata::SimpleW>() {
+                s.add_custom(garnish_lang_simple_data::NoCustom {})?
+            } else if let Some(b) = any.downcast_mut::<crate::simdata::BasicW>() {
+                b.push_to_data_block(garnish_lang_simple_data::BasicData::Custom(()))?
+            } else {
+                return Err(DataError::from("cannot materialise a custom value here".to_string()));
+            }
+        }
+        Val::Bad(_) => return Err(DataError::from("cannot materialise".to_string())),
     })
 }
 
